@@ -127,6 +127,11 @@ def check_iter(ds, m, tag, passes=2, cycle=True):
     for p in range(passes):
         got, exc, exhausted = take(lambda: ds, limit)
         check_stream(got, exc, exhausted, m, tag, f'iter{p + 1}')
+    if passes >= 2 and m.n >= 2:
+        # a pass that is abandoned after its first example, then a third complete pass: nothing may be left over
+        take(lambda: ds, 1)
+        got, exc, exhausted = take(lambda: ds, limit)
+        check_stream(got, exc, exhausted, m, tag, 'iter3')
     if cycle and m.n >= 1 and not m.has_raise and not m.iter_taint:
         k = 2 * m.n + 1
         try:
